@@ -89,6 +89,11 @@ func (*Segment).TrimLeftSpaceWidth
   loop 1 inv t.Start <= start && (t.Start < t.Stop ==> start < t.Stop) && start <= t.Stop
   loop 1 inv padding >= 0
 
+// ---- source positions (C05): every segment stored in a node lies inside the source of the document being parsed ----
+ghost docLen() int                    // length of that source
+macro docSeg(s) = validSeg(s, docLen())
+macro docSrc(r)   = srcLenOf(r) == docLen()       // r reads that source
+
 // ---- Segments: a growable list of segments ----
 macro sameSeg(a, b) = a.Start == b.Start && a.Stop == b.Stop && a.Padding == b.Padding && a.ForceNewline == b.ForceNewline
 
@@ -97,6 +102,7 @@ func NewSegments
   modifies nothing
 
 func (*Segments).Append
+  requires [C05_validseg] docSeg(t)
   ensures len(s.values) == old(len(s.values)) + 1
   ensures sameSeg(s.values[len(s.values)-1], t)
   ensures forall k int :: 0 <= k && k < old(len(s.values)) ==> sameSeg(s.values[k], old(s.values[k]))
@@ -112,8 +118,12 @@ func (*Segments).At
   ensures sameSeg(result, s.values[i])
   modifies nothing
 
+func (*Segments).Unshift
+  requires [C05_validseg] docSeg(v)
+
 func (*Segments).Set
   requires 0 <= i && i < len(s.values)
+  requires [C05_validseg] docSeg(v)
   ensures sameSeg(s.values[i], v)
   ensures forall k int :: 0 <= k && k < len(s.values) && k != i ==> sameSeg(s.values[k], old(s.values[k]))
   modifies contents(s.values)
